@@ -23,7 +23,7 @@ def configs(tier):
         archs = [(1, 1, 1), (2, 1, 2), (2, 2, 1), (1, 2, 2)]
     else:
         archs = [(a, b, c) for a in (1, 2, 3) for b in (1, 2, 3) for c in (1, 2, 3)] + [(2, 4, 2), (2, 2, 4), (4, 1, 1), (1, 4, 4)]
-    return [{"nv": a, "nh": b, "na": c} for (a, b, c) in archs] + [{"generic": "every shape"}]
+    return [{"nv": a, "nh": b, "na": c} for (a, b, c) in archs] + [{"generic": "every shape"}, {"lean": "size-generic lemmas"}]
 
 
 def canaries(tier):
@@ -47,6 +47,9 @@ def Psi(am, ph, v, a, ctx=None, tag=""):
 
 
 def run_config(ctx, cfg):
+    if cfg.get("lean"):
+        from contracts import leanlink
+        return leanlink.run(ctx, "C02")
     if cfg.get("generic"):
         from contracts import gsets
         return gsets.run(ctx, "C02")
